@@ -190,7 +190,7 @@ fn data_of(s: &str) -> Vec<f64> {
 // ---- graphs -----------------------------------------------------------------------------------------------------
 type G = CausaloidGraph<Cz>;
 
-fn build_graph(kinds: &[usize], edges: &[(usize, usize)]) -> G {
+fn build_graph(kinds: &[usize], edges: &[(usize, usize, Option<u64>)]) -> G {
     let mut g: G = CausaloidGraph::new_with_capacity(kinds.len().max(1) + 2);
     for (i, k) in kinds.iter().enumerate() {
         let c = Causaloid::new(i as u64, CFNS[*k], "verif node");
@@ -200,8 +200,11 @@ fn build_graph(kinds: &[usize], edges: &[(usize, usize)]) -> G {
             g.add_causaloid(c);
         }
     }
-    for (a, bb) in edges {
-        let _ = g.add_edge(*a, *bb);
+    for (a, bb, w) in edges {
+        let _ = match w {
+            None => g.add_edge(*a, *bb),
+            Some(w) => g.add_edg_with_weight(*a, *bb, *w),
+        };
     }
     g
 }
@@ -278,11 +281,15 @@ impl Interp for C12 {
             }
             "graph" => {
                 let kinds: Vec<usize> = list(a[2]).iter().map(|k| p::<usize>(k)).collect();
-                let edges: Vec<(usize, usize)> = list(a[3])
+                // `a-b` (add_edge) or `a-b:w` (add_edg_with_weight)
+                let edges: Vec<(usize, usize, Option<u64>)> = list(a[3])
                     .iter()
                     .map(|e| {
-                        let (x, y) = e.split_once('-').expect("edge");
-                        (p::<usize>(x), p::<usize>(y))
+                        let (x, rest) = e.split_once('-').expect("edge");
+                        match rest.split_once(':') {
+                            Some((y, w)) => (p::<usize>(x), p::<usize>(y), Some(p::<u64>(w))),
+                            None => (p::<usize>(x), p::<usize>(rest), None),
+                        }
                     })
                     .collect();
                 let g = build_graph(&kinds, &edges);
